@@ -87,7 +87,8 @@ def check(case, ctx):
     try:
         S = specs.build(spec)
     except DeclarationError as e:
-        raise HarnessError(f"undeclarable spec {spec!r}: {e}")
+        ctx.skip_undeclarable(None, e)
+        return
     v = values.realize(case["value"])
     ctx.label("kind:" + case["kind"])
     try:
